@@ -156,7 +156,7 @@ where
             let x: F = build(raw);
             let mut w = CountingWriter::new();
             let (size, r) = match how {
-                SerHow::Mode(c) => (x.serialized_size(c), x.serialize_with_mode(&mut w, c)),
+                SerHow::Mode(c) => (crate::api::size(&x, c), crate::api::ser(&x, &mut w, c)),
                 SerHow::Flags(FlagKind::Empty, _) => (x.serialized_size_with_flags::<EmptyFlags>(), x.serialize_with_flags(&mut w, EmptyFlags)),
                 SerHow::Flags(FlagKind::Sw, m) => (x.serialized_size_with_flags::<SWFlags>(), x.serialize_with_flags(&mut w, sw_flag(m))),
                 SerHow::Flags(FlagKind::Te, m) => (x.serialized_size_with_flags::<TEFlags>(), x.serialize_with_flags(&mut w, te_flag(m))),
@@ -168,7 +168,7 @@ where
         guard(|| {
             let mut rd = CountingReader::new(bytes, advertised);
             let result = match how {
-                DeHow::Mode(c, v) => F::deserialize_with_mode(&mut rd, c, v).map(|x| (unbuild(&x), 0u8)),
+                DeHow::Mode(c, v) => crate::api::de::<F, _>(&mut rd, c, v).map(|x| (unbuild(&x), 0u8)),
                 DeHow::Flags(FlagKind::Empty) => F::deserialize_with_flags::<_, EmptyFlags>(&mut rd).map(|(x, _)| (unbuild(&x), 0u8)),
                 DeHow::Flags(FlagKind::Sw) => F::deserialize_with_flags::<_, SWFlags>(&mut rd).map(|(x, f)| (unbuild(&x), sw_mask(f))),
                 DeHow::Flags(FlagKind::Te) => F::deserialize_with_flags::<_, TEFlags>(&mut rd).map(|(x, f)| (unbuild(&x), te_mask(f))),
